@@ -126,6 +126,18 @@ func (r *Run) Failf(format string, a ...any) {
 	r.Fatal = append(r.Fatal, "["+r.CurConfig+"] "+fmt.Sprintf(format, a...))
 }
 
+// KnownKeys returns the (rule\x00construct) keys of the recorded findings of this property.
+func (r *Run) KnownKeys() map[string]bool {
+	kf, _ := loadKnown(r.VerifDir)
+	out := map[string]bool{}
+	for _, k := range kf.Findings {
+		if k.Property == r.Property {
+			out[k.Rule+"\x00"+k.Construct] = true
+		}
+	}
+	return out
+}
+
 func loadKnown(dir string) (KnownFile, error) {
 	var kf KnownFile
 	b, err := os.ReadFile(filepath.Join(dir, "known_findings.json"))
